@@ -523,6 +523,23 @@ class SchedTimeout(BaseException):
     pass
 
 
+def kill_threads(ts):
+    """threads of the real code that never came back (a spin, a scheduler time-out): raise SystemExit inside them
+    so that they do not keep burning the interpreter for everything that follows in this worker process"""
+    import ctypes
+    import time
+    alive = [t for t in ts if t.is_alive()]
+    for t in alive:
+        try:
+            ctypes.pythonapi.PyThreadState_SetAsyncExc(ctypes.c_ulong(t.ident), ctypes.py_object(SystemExit))
+        except Exception:           # noqa
+            pass
+    if alive:
+        end = time.time() + 3.0
+        for t in alive:
+            t.join(max(0.0, end - time.time()))
+
+
 class Sched:
     """Threads stop at every line event of fastparquet code and run only while they hold the baton.
     plan = [[tid, n, unit], ...]: thread tid runs until it has met n line events (unit "lines", the
@@ -563,6 +580,8 @@ class Sched:
 
     def on_line(self, tid, wrote=None):
         self.steps[tid] += 1
+        if self.dead:
+            raise SchedTimeout("schedule abandoned")
         if self.pos >= len(self.plan):
             return
         e = self.plan[self.pos]
@@ -630,7 +649,11 @@ def forced_run(pf, ops, plan, shared=None, timeout=30.0, root=None, opcodes=Fals
     deadline = time.time() + timeout + 5
     for t in ts:
         t.join(max(0.0, deadline - time.time()))
-    return res, list(sch.steps), sch.dead or any(t.is_alive() for t in ts)
+    dead = sch.dead or any(t.is_alive() for t in ts)
+    if dead:
+        sch.dead = True
+        kill_threads(ts)
+    return res, list(sch.steps), dead
 
 
 def count_steps(pf, op, shared=None, opcodes=False):
@@ -686,6 +709,8 @@ def stress_run(pf, op_lists, rng, shared=None, switch=1e-6):
     finally:
         sys.setswitchinterval(old)
     hung = any(t.is_alive() for t in ts)
+    if hung:
+        kill_threads(ts)
     late = [[canon(r) for r in l] for l in raw]
     return early, late, hung
 
@@ -906,4 +931,9 @@ def storm_run(pf, op_a, op_b, shared=None, every=1, phase=0, timeout=40.0, max_c
     tb.start()
     tb.join(timeout * 2)
     ta.join(5.0 if not tb.is_alive() else 0.1)
-    return a_results, res_b[0], calls[0], dead[0] or ta.is_alive() or tb.is_alive()
+    isdead = dead[0] or ta.is_alive() or tb.is_alive()
+    if isdead:
+        dead[0] = True
+        stop[0] = True
+        kill_threads([ta, tb])
+    return a_results, res_b[0], calls[0], isdead
